@@ -437,6 +437,10 @@ def run(ctx):
     mc_jk(ctx, "neg_variance_no_mean", 5, 4, 3, mut="variance_no_mean", expect="violation", inv=["RowsOptimal"])
     mc_jk(ctx, "neg_elt_off_by_one", 5, 4, 3, mut="elt_off_by_one", expect="violation", inv=["RealisedIsOptimal"])
     ctx.exhaustive = True
+    # unbounded bin VALUES: inductive invariant of the same search discharged by Apalache (spec/apalache/ClassifyInd.tla),
+    # and TLC's cross-check that its typed step equals ClassifyOps!BSStep
+    from harness.props import c12_apalache
+    c12_apalache.run_apalache(ctx, [2, 8] if not thorough else [1, 2, 3, 5, 8, 16, 32])
 
     # ------------------------------------------------------------------ observe: one fan-out for all compiled jobs
     # (every worker process pays the import + JIT cost once), a second one in interpreted mode for the step traces
